@@ -257,6 +257,16 @@ def order_consistent(order, new):
         if ok: return True
     return False
 
+def frame_refs(t, uid, out=None, depth=0):
+    """cells (uid, local) of frame `uid` referenced from term t"""
+    if out is None: out = set()
+    if not isinstance(t, tuple) or depth > 60: return out
+    if len(t) == 2 and t[0] == 'ref' and isinstance(t[1], tuple) and len(t[1]) == 3 and t[1][0] == uid:
+        out.add((t[1][0], t[1][1])); return out
+    for x in t:
+        if isinstance(x, tuple): frame_refs(x, uid, out, depth + 1)
+    return out
+
 class Frame:
     __slots__ = ('uid', 'body', 'subst', 'loops')
     def __init__(self, uid, body, subst):
@@ -588,9 +598,15 @@ class Interp:
             except PathEnd:
                 pass
         # pop frame
-        for s, _ in results:
+        for s, rv in results:
             s.stack = old_stack
-            dead = [key for key in s.mem if key[0] == fr.uid]
+            # a returned reference into this frame (a borrowed view modelled as a value copy, e.g. `&*id.as_bytes()`) keeps its cell alive
+            keep = set(); todo = [rv]
+            while todo:
+                for cell in frame_refs(todo.pop(), fr.uid):
+                    if cell not in keep:
+                        keep.add(cell); todo.append(s.mem.get(cell, UNDEF))
+            dead = [key for key in s.mem if key[0] == fr.uid and key not in keep]
             for key in dead: del s.mem[key]
         return results
 
